@@ -281,6 +281,13 @@ class Server(base_server.BaseServer):
                                 f'Invalid transport for session {sid}',
                                 'bad-transport')
                             r = self._bad_request('Invalid transport')
+                        elif upgrade_header in self.valid_transports and \
+                                upgrade_header not in self.transports:
+                            # upgrade to a transport that is not allowed
+                            self._log_error_once(
+                                f'Invalid transport for session {sid}',
+                                'bad-transport')
+                            r = self._bad_request('Invalid transport')
                         else:
                             try:
                                 packets = socket.handle_get_request(
